@@ -139,6 +139,29 @@ func C09(r *vf.Run) {
 				raw[0x2A] = 0x01
 			}
 		}
+		if ss := srcStrings(); len(ss) > 0 && g.Intn(6) == 0 {
+			// text fields that say something: the strings the library's own source contains (names it may
+			// know, keywords it may look for), padded the way cartridges pad titles
+			t := ss[g.Intn(len(ss))]
+			pad := []byte{' ', 0, ' ', 0xFF}[g.Intn(4)]
+			for i := 0; i < 21; i++ {
+				c := pad
+				if i < len(t) {
+					c = t[i]
+				}
+				if ver == 2 && i == 20 {
+					c = 0
+				}
+				if ver == 1 && i == 20 && c == 0 {
+					c = ' '
+				}
+				raw[0x10+i] = c
+			}
+			if g.Intn(3) == 0 { // ... or in the maker / game code of the extended header
+				t2 := ss[g.Intn(len(ss))]
+				copy(raw[0x00:0x06], t2)
+			}
+		}
 		if g.Intn(8) == 0 { // sparse headers: mostly zero / mostly FF
 			fill := byte(0)
 			if g.Bool() {
